@@ -437,14 +437,18 @@ Proof.
   pose proof (exp_scaled_asis_nearest_base2_partial 2 ltac:(lia) toy_f32 64 MHalfEven toy_usize toy_digits_lb eq_refl
                 80 64 1 0 _ (/ IZR (2 ^ 65)) eq_refl ltac:(lia) ltac:(lia) Run) as T.
   cbv zeta in T.
-  change (exp_scaled_wp 2 toy_f32 64 64 1 0) with 114 in T.
-  change (iacoth_wp 2 toy_f32 114) with 136 in T.
-  change (exp_n_gen toy_f32 64) with 8 in T.
-  change (powi_work_precision 64 (2 ^ 8)) with 80 in T.
+  replace (exp_scaled_wp 2 toy_f32 64 64 1 0) with 114 in T by (vm_compute; reflexivity).
+  replace (iacoth_wp 2 toy_f32 114) with 136 in T by (vm_compute; reflexivity).
+  replace (exp_n_gen toy_f32 64) with 8 in T by (vm_compute; reflexivity).
+  replace (powi_work_precision 64 (2 ^ 8)) with 80 in T by (vm_compute; reflexivity).
   unfold ElemSeriesInst.uP in T.
-  change (2 * 2 ^ (114 - 1)) with (2 ^ 114) in T. change (2 * 2 ^ (136 - 1)) with (2 ^ 136) in T.
-  change (2 * 2 ^ (80 - 1)) with (2 ^ 80) in T. change (2 ^ 8 - 1) with 255 in T. change (2 ^ 8) with 256 in T.
-  rewrite !INR_IZR_INZ in T. change (Z.of_nat (10 * 80 + 16)) with 816 in T. change (Z.of_nat 81) with 81 in T.
+  replace (2 * 2 ^ (114 - 1)) with (2 ^ 114) in T by (vm_compute; reflexivity).
+  replace (2 * 2 ^ (136 - 1)) with (2 ^ 136) in T by (vm_compute; reflexivity).
+  replace (2 * 2 ^ (80 - 1)) with (2 ^ 80) in T by (vm_compute; reflexivity).
+  replace (2 ^ 8 - 1) with 255 in T by (vm_compute; reflexivity). replace (2 ^ 8) with 256 in T by (vm_compute; reflexivity).
+  rewrite !INR_IZR_INZ in T.
+  replace (Z.of_nat (10 * 80 + 16)) with 816 in T by (vm_compute; reflexivity).
+  replace (Z.of_nat 81) with 81 in T by (vm_compute; reflexivity).
   rewrite fval_1_0, Rabs_R1 in T.
   set (u := (/ IZR (2 ^ 114))%R) in *. set (uL := (/ IZR (2 ^ 136))%R) in *. set (u' := (/ IZR (2 ^ 80))%R) in *.
   pose proof ln2_bounds as [Ll Lu].
